@@ -77,6 +77,8 @@ class Run(object):
         self.choice_log = []             # (number of pending bodies) at each quiescent point
         self.chooser = None
         self.n_stop = self.n_conc = self.n_raise = 0
+        self.used = False                # True: the Pipeline object has already completed one (empty) run
+        self.prerun = False
 
     def tick(self):
         self.ticks += 1
@@ -114,6 +116,8 @@ class Run(object):
 
             @asyncio.coroutine
             def get_item(self):
+                if run.prerun:
+                    return None
                 if run.src_async:
                     run.src_fut = asyncio.get_event_loop().create_future()
                     try:
@@ -295,8 +299,27 @@ class Run(object):
             return True
         return False
 
+    def _prerun(self, p):
+        """The same Pipeline object is run once before the recorded execution: its source says "nothing" at once,
+        the run ends in the ordinary way, nothing of it is recorded.  What the object carries over (state, events,
+        queue, worker set) is then part of the recorded run (seeded change C13-r5v1: a stale 'unpaused' event)."""
+        saved = (self.ev, self.steps, self.ticks, self.timed)
+        self.ev, self.timed, self.prerun = [], {}, True
+        p.concurrency = 1
+        try:
+            kind, val = vloop.run(lambda: p.process(), lambda: False)
+        finally:
+            self.prerun = False
+            self.ev, self.steps, self.ticks, self.timed = saved
+            self.nworkers, self.wids, self._ext_stop = 0, {}, False
+        if kind != 'ok':
+            raise RuntimeError('pre-run of an empty pipeline did not finish: %r %r' % (kind, val))
+        p.concurrency = self.C0
+
     def execute(self):
         p = self.build()
+        if self.used:
+            self._prerun(p)
         old = signal.signal(signal.SIGVTALRM, _alarm)
         signal.setitimer(signal.ITIMER_VIRTUAL, self.watchdog_s)
         try:
@@ -356,6 +379,7 @@ def confirm_livelock(r):
     else:
         again = Run(r.K, r.T, r.C0, r.script0, fallback=r.fallback, timed=r.timed0, src_async=r.src_async)
     again.watchdog_s = 20.0
+    again.used = r.used
     again.execute()
     return again
 
